@@ -1,5 +1,7 @@
 """C17 - alignment validity checks accept exactly partitions (Alignment) and covers (SoftAlignment)."""
 import copy
+import json
+import os
 
 from .. import cases
 
@@ -12,7 +14,8 @@ RULE = ("seeded random continua up to 4x5 units (incl. identical units across an
         "foreign unit added once, all-empty unitary alignment added, one annotator named in two slots of a unitary alignment, "
         "the same unit twice in one unitary alignment, slots permuted, unitary alignments permuted, up to "
         "3 mutations combined), the alignment without any unitary alignment, and check / same-size edit of the continuum object (remove + add) / check "
-        "again histories; thorough tier also enumerates ALL partitions of tiny continua x every single mutation. "
+        "again histories, and continua / alignments built and pickled in another process under another hash seed, checked here against objects built "
+        "here; thorough tier also enumerates ALL partitions of tiny continua x every single mutation. "
         "Each candidate is judged by Alignment.check(), SoftAlignment.check(), both constructors with "
         "check_validity=True, check(continuum) with the continuum passed explicitly, before and after shuffling; the "
         "reference predicate counts each (annotator, unit) of the continuum among the real slots. non-trivial = "
@@ -263,7 +266,67 @@ def check_edit_case(ctx, case):
                              {"got": got, "step": step, "edit": [a, k, new_unit]}, monitor=mon)
 
 
+def check_cross_process(ctx, case):
+    """Continua and alignments built and pickled in another process (another hash seed), unpickled here and checked against
+    each other and against continua built here: the outcome is the one the counts prescribe."""
+    import pickle
+    import subprocess
+    import sys
+    from pygamma_agreement.alignment import SetPartitionError
+    d = os.path.join(ctx.outdir, "pickles")
+    os.makedirs(d, exist_ok=True)
+    src, dst = os.path.join(d, f"in-{ctx.evaluations}.json"), os.path.join(d, f"out-{ctx.evaluations}.pkl")
+    with open(src, "w") as f:
+        json.dump(case["items"], f)
+    env = dict(os.environ, PYTHONHASHSEED=str(case["hash_seed"]))
+    r = subprocess.run([sys.executable, "-m", "vframework.pickle_maker", src, dst], env=env, capture_output=True, text=True, timeout=600,
+                       cwd=os.path.dirname(os.path.dirname(os.path.dirname(os.path.abspath(__file__)))))
+    if r.returncode != 0:
+        ctx.inconclusive_because("the pickling helper process failed: " + r.stderr[-300:])
+        return
+    with open(dst, "rb") as f:
+        data = pickle.load(f)
+    ctx.observe("pickled_under_hash_seed", f"{data['hash_seed']} (probe {data['probe']}) / here {os.environ.get('PYTHONHASHSEED')} (probe {hash('probe-string') & 0xffff})")
+
+    def outcome(fn):
+        try:
+            fn()
+            return "ok"
+        except SetPartitionError:
+            return "SetPartitionError"
+        except Exception as e:
+            return "other:" + type(e).__name__
+    for it, (c_far, al_far, so_far) in zip(case["items"], data["items"]):
+        cspec, aspec = it["continuum"], it["alignment"]
+        if foreign_duplicates(cspec, aspec):
+            continue
+        cnt = counts_of(cspec, aspec)
+        exp_part, exp_cover = all(c == 1 for c in cnt.values()), all(c >= 1 for c in cnt.values())
+        c_here = cases.build_continuum(cspec)
+        al_here = cases.build_alignment(cspec, aspec, continuum=None)
+        so_here = cases.build_alignment(cspec, aspec, continuum=None, soft=True)
+        for what, fn, exp, mon in (
+                ("Alignment(unpickled).check(continuum built here)", lambda: al_far.check(c_here), exp_part, "M-CHECK"),
+                ("Alignment(built here).check(continuum unpickled)", lambda: al_here.check(c_far), exp_part, "M-CHECK"),
+                ("Alignment(unpickled).check(continuum unpickled)", lambda: al_far.check(c_far), exp_part, "M-CHECK"),
+                ("SoftAlignment(unpickled).check(continuum built here)", lambda: so_far.check(c_here), exp_cover, "M-CHECK-SOFT"),
+                ("SoftAlignment(built here).check(continuum unpickled)", lambda: so_here.check(c_far), exp_cover, "M-CHECK-SOFT")):
+            ctx.count(mon)
+            ctx.count("M-CHECK-CROSS-PROCESS")
+            got, want = outcome(fn), ("ok" if exp else "SetPartitionError")
+            if got != want:
+                kind = "soft" if what.startswith("Soft") else "partition"
+                key = (f"{kind}:cross-process:" + ("invalid-alignment-accepted" if got == "ok" else
+                                                   ("valid-alignment-rejected" if got == "SetPartitionError" else got.replace("other:", "raises-"))))
+                ctx.fail(key, {"call": what, "got": got, "expected": want, "pickled_under_hash_seed": data["hash_seed"]}, monitor=mon)
+    for p_ in (src, dst):
+        if os.path.exists(p_):
+            os.unlink(p_)
+
+
 def check_case(ctx, case):
+    if "items" in case:
+        return check_cross_process(ctx, case)
     if "edits" in case:
         return check_edit_case(ctx, case)
     judge(ctx, case["continuum"], case["alignment"], case.get("mutations"))
@@ -304,6 +367,21 @@ def run(ctx):
         case = {"continuum": cspec, "alignment": asp, "mutations": muts}
         ctx.begin_case(case)
         ctx.observe("mutations", "close-large-coordinates+" + muts[0])
+        check_case(ctx, case)
+    # objects that travelled between processes: built and pickled under another hash seed, checked here
+    if ctx.shard % 2 == 0 or ctx.tier == "thorough":
+        items = []
+        for _ in range(ctx.scale(12, 120)):
+            n = rng.randint(2, 3)
+            cspec = cases.gen_continuum(rng, n_annot=n, max_units=4, min_total=2, p_none=rng.choice([0, 0, 0.3]), family=rng.choice(["grid", "identical", "touching"]))
+            cspec["ann"] = {a: [list(u) for u in us] for a, us in cspec["ann"].items()}
+            asp = cases.random_partition_alignment(rng, cspec, p_join=0.5)
+            for m in [rng.choice(["none", "none", "drop-unit", "dup-unit", "dup-unitary"])]:
+                asp = mutate(rng, cspec, asp, m)
+            items.append({"continuum": cspec, "alignment": asp})
+        case = {"items": items, "hash_seed": rng.choice([101, 202, 31337])}
+        ctx.begin_case(case)
+        ctx.observe("mutations", "cross-process (pickled under another hash seed)")
         check_case(ctx, case)
     # an alignment without any unitary alignment: a partition of nothing - refused (set-partition error) as soon as the
     # continuum holds a unit
